@@ -155,6 +155,59 @@ fn check_overlay(rt: &tokio::runtime::Runtime, out: &mut Out, w: &World, k: usiz
 	}
 }
 
+/// direct oracle: the advertised coverage of `overlay(children)` is, level by level, the bounding union of the
+/// children's advertised coverages (least pyramid containing all of them; a level is empty iff it is empty in every child)
+fn check_cover_union(rt: &tokio::runtime::Runtime, out: &mut Out, w: &World, children: &[String]) {
+	let rpn = format!("{},O{}", children.join(","), children.len());
+	let env = w.env_string();
+	let op = match build_op(rt, w, &rpn) {
+		Ok(Ok(o)) => o,
+		_ => return,
+	};
+	let mut kids = vec![];
+	for c in children {
+		match build_op(rt, w, c) {
+			Ok(Ok(o)) => kids.push(o),
+			_ => return,
+		}
+	}
+	let mut bad: Option<String> = None;
+	let mut emptied = 0;
+	for z in 0..32u8 {
+		let mut u: Option<(u32, u32, u32, u32)> = None;
+		for kd in kids.iter() {
+			let b = kd.get_parameters().bbox_pyramid.get_level_bbox(z);
+			if b.is_empty() {
+				if (b.x_min, b.y_min, b.x_max, b.y_max) == (1, 1, 0, 0) {
+					emptied += 1;
+				}
+				continue;
+			}
+			u = Some(match u {
+				None => (b.x_min, b.y_min, b.x_max, b.y_max),
+				Some((a, b2, c, d)) => (a.min(b.x_min), b2.min(b.y_min), c.max(b.x_max), d.max(b.y_max)),
+			});
+		}
+		let g = op.get_parameters().bbox_pyramid.get_level_bbox(z);
+		let same = match u {
+			None => g.is_empty(),
+			Some(t) => !g.is_empty() && (g.x_min, g.y_min, g.x_max, g.y_max) == t,
+		};
+		if !same && bad.is_none() {
+			bad = Some(format!("level {z}: advertised {g:?}, bounding union of the sources' coverages {u:?}"));
+		}
+	}
+	out.eval(&format!("C08 cover-union {rpn} {env}"), emptied > 0);
+	out.count("cover_union_checks");
+	out.count_n("cover_union_levels_emptied_by_a_filter", emptied);
+	out.oracle(
+		bad.is_none(),
+		&format!("C08 coverage of an overlay of filtered sources is not the union: {}", bad.unwrap_or_default()),
+		json!({"kind": "coverage_union_filtered"}),
+		json!({"case": format!("C08 P {rpn} {env}"), "vpl": rpn_to_vpl(&rpn)}),
+	);
+}
+
 fn coord_list(rng: &mut Rng, specs: &[SrcSpec]) -> Vec<TileCoord3> {
 	let mut v: Vec<(u32, u32, u8)> = vec![];
 	for s in coords_arg(rng, specs, 6).split(';') {
@@ -230,6 +283,30 @@ pub fn run(args: &Args) {
 			}
 		}
 		let k = specs.len();
+		// empty (0 bytes) and 1-byte tiles at every source position (first / middle / last), with and without a later
+		// source that has a tile there: an earlier source's empty tile wins
+		if wi % 2 == 0 {
+			let mut pool: Vec<Key> = specs.iter().flat_map(|s| s.tiles.keys().copied().collect::<Vec<_>>()).collect();
+			pool.sort();
+			pool.dedup();
+			for n in 0..6usize {
+				let c = *rng.pick(&pool);
+				let j = [0, k / 2, k - 1, 0, k - 1, k / 2][n] % k;
+				if base_kind(&specs[j].kind) == "mbtiles" && specs[j].tiles.keys().next().map(|q| q.0) != Some(c.0) {
+					continue;
+				}
+				if conv_flags(&specs[j].kind).is_some() {
+					continue;
+				}
+				specs[j].tiles.insert(c, if n % 2 == 0 { EMPTY_ID } else { ONE_BYTE_BASE + 3 });
+				// sometimes make sure a LATER source has a real tile there
+				if j + 1 < k && rng.chance(1, 2) && base_kind(&specs[k - 1].kind) != "mbtiles" && conv_flags(&specs[k - 1].kind).is_none() {
+					next += 1;
+					specs[k - 1].tiles.entry(c).or_insert(next);
+				}
+				out.count(&format!("empty_or_1byte_tile_in_source_position_{}", if j == 0 { "first" } else if j == k - 1 { "last" } else { "middle" }));
+			}
+		}
 		let w = World::build(&rt, &scratch, &specs);
 		out.count("world");
 		out.count(&format!("sources_{k}"));
@@ -258,6 +335,23 @@ pub fn run(args: &Args) {
 			.map(|i| if i == j { format!("L{i},{}", if rng.chance(1, 2) { zoom_arg(&mut rng, &levels) } else { geo_arg(&mut rng, &levels) }) } else { format!("L{i}") })
 			.collect();
 		pipes.push(format!("{},O{k},{}", inner.join(","), if rng.chance(1, 2) { zoom_arg(&mut rng, &levels) } else { geo_arg(&mut rng, &levels) }));
+		// coverage union over children whose levels were emptied by filters (set_empty encoding (1,1,0,0), empty
+		// intersections, new_empty levels): zoom filters cutting from below / above, a bbox filter far away
+		{
+			let zs: Vec<u8> = levels.iter().filter(|(_, v)| !v.is_empty()).map(|(z, _)| *z).collect();
+			let zc = if zs.is_empty() { 3 } else { *rng.pick(&zs) };
+			let far = format!("B{}:{}:{}:{}", 170.0f64.to_bits(), (-80.0f64).to_bits(), 179.0f64.to_bits(), (-70.0f64).to_bits());
+			let variants: Vec<Vec<String>> = vec![
+				(0..k).map(|i| if i % 2 == 0 { format!("L{i},Z{}:n", zc) } else { format!("L{i},Zn:{}", zc.saturating_sub(1)) }).collect(),
+				(0..k).map(|i| if i == 0 { format!("L{i},Z{}:n", zc.saturating_add(1).min(31)) } else { format!("L{i},{far},Zn:{zc}") }).collect(),
+				(0..k).map(|i| if i == k - 1 { format!("L{i},Z9:2") } else { format!("L{i},Zn:{zc}") }).collect(),
+			];
+			for ch in variants {
+				check_cover_union(&rt, &mut out, &w, &ch);
+				let rpn = format!("{},O{k}", ch.join(","));
+				run_in_world(&rt, &mut out, &mut id, &w, "C08", "P", &rpn, "");
+			}
+		}
 		// overlay of overlays
 		if k >= 3 {
 			pipes.push(format!("L0,L1,O2,{},O{}", (2..k).map(|i| format!("L{i}")).collect::<Vec<_>>().join(","), k - 1));
